@@ -4,7 +4,7 @@ Three rewrites that never change behaviour are undone, so that a rule sees one s
   * ``if not c: A else: B``            ->  ``if c: B else: A``        (only when there is an else branch and it is not an elif)
   * ``K == x`` / ``b.y == a.x``        ->  operands of ``==`` / ``!=`` in a fixed order: constants last, ``self...`` first,
                                            otherwise by text
-  * ``t = E; return t`` (t used nowhere else) -> ``return E``
+  * ``t = E; return t`` (adjacent; t not read by a finally block) -> ``return E``
 Line numbers are kept (copy_location), so reports still point at the author's lines."""
 from __future__ import annotations
 
@@ -56,7 +56,7 @@ class _Canon(ast.NodeTransformer):
             st = body[i]
             nxt = body[i + 1] if i + 1 < len(body) else None
             if isinstance(st, ast.Assign) and len(st.targets) == 1 and isinstance(st.targets[0], ast.Name) and isinstance(nxt, ast.Return) \
-                    and isinstance(nxt.value, ast.Name) and nxt.value.id == st.targets[0].id and self._uses.get(st.targets[0].id, 0) == 2:
+                    and isinstance(nxt.value, ast.Name) and nxt.value.id == st.targets[0].id and st.targets[0].id not in self._in_finally:
                 r = ast.Return(st.value)
                 ast.copy_location(r, st)
                 r.end_lineno = getattr(nxt, "end_lineno", None)
@@ -74,6 +74,8 @@ class _Canon(ast.NodeTransformer):
             if isinstance(n, ast.Name):
                 uses[n.id] = uses.get(n.id, 0) + 1
         self._uses = uses
+        # the value of `t = E; return t` can only be seen again by a finally block that reads t
+        self._in_finally = {n.id for t in ast.walk(node) if isinstance(t, ast.Try) for f in t.finalbody for n in ast.walk(f) if isinstance(n, ast.Name)}
         for holder in ast.walk(node):
             for fld in ("body", "orelse", "finalbody"):
                 b = getattr(holder, fld, None)
